@@ -56,3 +56,60 @@ Proof.
   - eexists; splits; reflexivity.
   - eexists; splits; reflexivity.
 Qed.
+
+(* ---- recenter_rectangles at a coincidence: the hard module of [ex_mods] (areas 4 and 1, area-weighted centre
+   (33/10, 3)) sent to (33/10, 5): the x increment is exactly zero, every rectangle still moves by 2 in y ---- *)
+Definition ex_hard_rects : list Rect :=
+  [mkRect (qc 3 1) (qc 3 1) (qc 2 1) (qc 2 1) false true "_" TRUNK;
+   mkRect (qc 9 2) (qc 3 1) (qc 1 1) (qc 1 1) false true "_" EAST].
+Example ex_recenter_one_axis :
+  Qceqb (gx ex_hard_rects) (qc 33 10) = true /\ Qceqb (gy ex_hard_rects) (qc 3 1) = true /\
+  match recenter ex_hard_rects (qc 33 10, qc 5 1) with
+  | Ok rs => list_eqb rect_eqb rs
+               [mkRect (qc 3 1) (qc 5 1) (qc 2 1) (qc 2 1) false true "_" TRUNK;
+                mkRect (qc 9 2) (qc 5 1) (qc 1 1) (qc 1 1) false true "_" EAST]
+  | _ => false
+  end = true.
+Proof. splits; vm_compute; reflexivity. Qed.
+
+(* hypotheses of recenter_fixpoint / recenter_idem / recenter_history: both increments zero; a history with a new
+   centre, an added rectangle and an edited rectangle between three recentrings *)
+Example ex_recenter_fixpoint_hyps :
+  rects_area ex_hard_rects <> 0 /\ gx ex_hard_rects = fst (qc 33 10, qc 3 1) /\ gy ex_hard_rects = snd (qc 33 10, qc 3 1).
+Proof.
+  splits.
+  - apply Qceqb_false. vm_compute. reflexivity.
+  - apply Qceqb_true. vm_compute. reflexivity.
+  - apply Qceqb_true. vm_compute. reflexivity.
+Qed.
+Example ex_rc_history_returns :
+  exists st', rc_run ([RcSet (qc 33 10, qc 5 1); RcRecenter; RcSet (qc 1 1, qc 5 1); RcRecenter;
+                       RcAdd (mkRect (qc 7 1) (qc 7 1) (qc 1 1) (qc 2 1) false true "_" NOPOLY);
+                       RcPut 1 (mkRect (qc 9 2) (qc 1 1) (qc 1 2) (qc 1 1) false true "_" EAST)] ++ [RcRecenter])
+                     (mkRc None ex_hard_rects) = Ok st'.
+Proof. vm_compute. eexists. reflexivity. Qed.
+
+(* ---- three calls on one object: other dies, other trial counts, other "eigen-iterations"; the second call is in
+   init mode (it reads the centre matrix stored at construction, wiped by the first call for the movable modules,
+   and needs every module to have a centre NOW: a netlist without hard modules) ---- *)
+Definition ex_soft_mods : list (smod Qc) :=
+  [ mkSmod (Some (qc 1 1, qc 1 1)) false false false [] (qc 1 1);
+    mkSmod None false false false [] (qc 1 2);
+    mkSmod (Some (qc 7 1, qc 5 1)) false false false [] (qc 3 2);
+    mkSmod (Some (qc 3 1, qc 3 1)) false false false [] (qc 5 4);
+    mkSmod (Some (qc 6 1, qc 1 1)) true false true [] 0 ].
+Definition ex_calls : list call :=
+  [mkCall (qc 8 1) (qc 6 1) 2 ex_rnd ex_produce ex_niter;
+   mkCall (qc 10 1) (qc 7 1) 0 ex_rnd ex_produce (fun tr d => (1 + d)%nat);
+   mkCall (qc 7 1) (qc 9 1) 1 (fun tr d i => ex_rnd (S tr) d i) ex_produce ex_niter].
+Definition returns_after (ms : list (smod Qc)) (calls : list call) : bool :=
+  match sess_init (fun m => s_other m) (mkSnet ms ex_adj tt) with
+  | Ok s0 => match sess_run f16_thr calls s0 with Ok _ => true | _ => false end
+  | _ => false
+  end.
+Example ex_session_returns :
+  returns_after ex_soft_mods ex_calls = true /\
+  (* with the movable hard module of [ex_mods]: two calls with trials > 0 *)
+  returns_after ex_mods [nth 0 ex_calls (mkCall 0 0 0 ex_rnd ex_produce ex_niter);
+                         nth 2 ex_calls (mkCall 0 0 0 ex_rnd ex_produce ex_niter)] = true.
+Proof. split; vm_compute; reflexivity. Qed.
